@@ -28,6 +28,15 @@ CHECKS['C18'] = (
     'trusts Python list semantics; the whitespace proxy TexArgs.all is measured but not judged (not in the statement)',
     '3/C18')
 
+CHECKS['C19'] = (
+    'exhaustive code-point sweep + bounded-exhaustive strings + Hypothesis strings, two-pointer partition oracle',
+    'all 1,114,112 code points (alone and embedded) and every string of <=4 (quick) / <=5 (thorough) symbols over a '
+    '31-symbol category/word alphabet are categorised and tokenised; oracle: one category item per character with its '
+    'index; tokens non-empty, aligned left-to-right against the input skipping only NUL/DEL, each recording the offset '
+    'where its text starts. Random strings up to 60 symbols beyond. Exhaustive within the stated bounds, exploration beyond.',
+    'trusts str indexing; does not judge WHICH category a character gets, only that it is exactly one, context-free',
+    '3/C19')
+
 PENDING = {}
 
 
